@@ -1,18 +1,18 @@
-SPECIFICATION SimSpec
+SPECIFICATION Spec
 CONSTANTS
   Svcs = {"s1"}
-  Addrs = {"a1", "a2", "a3"}
+  Addrs = {"a1"}
   Conns = {"c1", "c2"}
   Nodes = {"n1"}
   H = 1
-  T = 3
-  MaxNow = 10
-  MaxOps = 18
-  SimKinds <- KindsExpiry
+  T = 2
+  MaxNow = 3
+  MaxOps = 1000000
   SyncHttpClientIds = FALSE
-  Record = TRUE
-  Defect_NoArmOnSync = FALSE
+  Record = FALSE
+  Defect_NoArmOnSync = TRUE
   Defect_TakeoverKeepsOrigin = FALSE
   Defect_ClientSetBeforeOwner = FALSE
-INVARIANTS ExportBehaviour
+VIEW StateView
+PROPERTIES OwnedExpiredAfterSweep
 CHECK_DEADLOCK FALSE
